@@ -474,7 +474,7 @@ func init() {
 		ID: "C12", PkgDir: "part",
 		Quick:    []HarnessRun{w(1, 2, 1, 0, 0), w(1, 2, 1, 1, 0), w(2, 1, 1, 0, 1), w(1, 1, 2, 0, 0), w(1, 1, 2, 1, 0), preset(1, 1), preset(2, 1), preset(4, 1), preset(5, 1), preset(6, 1), merge7},
 		Thorough: []HarnessRun{preset(3, 1), w(1, 2, 1, 1, 1), w(2, 1, 1, 1, 0)},
-		Outside:  []string{"outside: trees deeper than the keys of length <= L allow; more than N1 pre-state keys and N2 later operations; channels of write-transaction queries"},
+		Outside:  []string{"pre-state shapes: PRESET 1-7 are concrete 3-6 key trees (keys that are prefixes of one another, a node with 5 children, an inner node with a value and a single inner-node child); in the PRESET 7 run symbolic key bytes range over {a..e,x}, the first operation is a delete of a key of at most one byte and watched keys have at most two bytes", "outside: trees deeper than the keys of length <= L allow; more than N1 pre-state keys and N2 later operations; channels of write-transaction queries"},
 	})
 }
 
@@ -652,7 +652,7 @@ func init() {
 			{Entry: "VerifC10Threads", Params: map[string]int{"T": 2, "LISTMAX": 7, "KINDMAX": 0}, Covers: []string{"C10.end"}, NoNative: true, Preempt: 1, Budget2: 3, Deadlock: true},
 		},
 		Known: []KnownProbe{{ID: "KF-commit-drops-new-table", Entry: "VerifKFCommitDropsNewTable"}},
-		Outside: []string{"outside: more than 2-3 threads / 3 tables; more than the preemption budget (2 quick, 3 thorough) of voluntary switches per schedule, scheduling points = lock acquisitions and goroutine starts (a ReadTxn/root load is atomic); weak-memory effects",
+		Outside: []string{"thread runs: symbolic table lists (any order, duplicates) on 3 tables, thread kinds write / iterator create+close / register a table; one run uses a one-table database so that the committer holds every table while another thread registers a table, with every atomic/unlock/channel operation a scheduling point", "outside: more than 2-3 threads / 3 tables; more than the preemption budget (2 quick, 3 thorough) of voluntary switches per schedule, scheduling points = lock acquisitions and goroutine starts (a ReadTxn/root load is atomic); weak-memory effects",
 			"VerifC05Serial: two logical actors in one thread, the VM's lock monitor decides 'would block' (VM-only vocabulary: counterexamples of this harness are replayed concretely in the VM on the real code, not with go test)"},
 	})
 	reg(&CheckSpec{
@@ -691,7 +691,7 @@ func init() {
 			{Entry: "VerifC08Graveyard", Params: map[string]int{"N": 3, "NIT": 2, "EARLY": 1}, Covers: []string{"C08.end"}, NoNative: true, Preempt: 0, Deadlock: true},
 			{Entry: "VerifC08Graveyard", Params: map[string]int{"N": 3, "NIT": 2}, Covers: []string{"C08.end"}, NoNative: true, Preempt: 0, Deadlock: true},
 		},
-		Outside: []string{"outside: real-time behaviour of rate.Limiter (stub: Wait yields and returns ctx.Err()); more than 2 keys / 2 iterators / N writer steps; preemption budget 2 at lock acquisitions (this is what places the collector between its lock-free scan and its write transaction); VM-only vocabulary (virtual time, threads): counterexamples are replayed concretely in the VM"},
+		Outside: []string{"step kinds: write (insert/delete/rejected CAS of two keys), iterator catches up, iterator closed, collector window (virtual time passes), new iterator, catch-up through a WriteTxn with a pending delete, partial consumption (first pending change only), writer holding the table during the collector's scan and re-inserting; VerifC08TwoTables: two tables with one iterator each, per round symbolic deletes/catch-ups/collector window, symbolic size of the second table", "outside: real-time behaviour of rate.Limiter (stub: Wait yields and returns ctx.Err()); more than 2 keys / 2 iterators / N writer steps; preemption budget 2 at lock acquisitions (this is what places the collector between its lock-free scan and its write transaction); VM-only vocabulary (virtual time, threads): counterexamples are replayed concretely in the VM"},
 	})
 	reg(&CheckSpec{
 		ID: "C20", PkgDir: "statedb",
@@ -711,7 +711,7 @@ func init() {
 			// a table is registered while the observed transaction is open (Commit merges into a grown root)
 			{Entry: "VerifC02Atomic", Params: map[string]int{"N": 1, "L": 1, "NEWTABLE": 1}, Covers: []string{"C02.table-registered-meanwhile", "C02.committed", "C02.end"}, NoNative: true}},
 		Thorough: []HarnessRun{c02(3), {Entry: "VerifC02Atomic", Params: map[string]int{"N": 2, "L": 2}, Covers: []string{"C02.end"}, NoNative: true}},
-		Outside: []string{"outside: more than two tables / N writes per transaction; observation points are the synchronisation operations (atomic store/swap, mutex lock/unlock, channel close) executed between WriteTxn's return and the end of Commit/Abort - the states a concurrent reader (one atomic root load) can distinguish; finer instruction-level interleavings and weak memory are not explored",
+		Outside: []string{"one run registers a third table while the observed transaction is open", "outside: more than two tables / N writes per transaction; observation points are the synchronisation operations (atomic store/swap, mutex lock/unlock, channel close) executed between WriteTxn's return and the end of Commit/Abort - the states a concurrent reader (one atomic root load) can distinguish; finer instruction-level interleavings and weak memory are not explored",
 			"VM-only vocabulary (sync observer): counterexamples are replayed concretely in the VM on the real code"},
 	})
 	c06 := func(n, l int) HarnessRun {
